@@ -220,14 +220,17 @@ def yaxis_from_shape(
 
     if ndim != 3:
         raise ValueError("Can only work with 2-d or 3-d data")
+    if gbox is not None:
+        # GeoBox decides when it can: an SYX image can be 3 or 4 pixels wide
+        if gbox.shape == shape[:2]:  # YXS
+            return "YXS", 0
+        if gbox.shape == shape[1:]:  # SYX
+            return "SYX", 1
+
     if shape[-1] in (3, 4):  # YXS in RGB(A)
         return "YXS", 0
 
     if gbox is None:
-        return "SYX", 1
-    if gbox.shape == shape[:2]:  # YXS
-        return "YXS", 0
-    if gbox.shape == shape[1:]:  # SYX
         return "SYX", 1
 
     raise ValueError("Geobox and image shape do not match")
